@@ -11,6 +11,10 @@
       followed by one fresh node per unfrozen parameter;
     - the position-wise reading [gd_post] and the main theorem [gd_update_spec];
     - [gd_update_all_frozen], [model_update_spec];
+    - parameter lists with several handles of one node: as in corgi, "frozen" is decided
+      while walking the list ([frozen_flags]); [frozen_flags_false_iff] characterises the
+      flags, [frozen_flags_nodup] shows they are the up-front test when no node repeats,
+      [gd_update_alias_spec] / [gd_post_alias] describe the later handles of a stepped node;
     - examples over [Z_ops]: non-vacuity, and the refutation without the length
       hypothesis (what C03 provides). *)
 
@@ -79,6 +83,17 @@ Proof.
   - intros H. exists j. split; [exact H | apply Nat.eqb_refl].
 Qed.
 
+(** the element at position [i] of a list without repetition (up to [f]) does not occur before *)
+Lemma nodup_first_occ : forall {A B} (f : A -> B) (l : list A) i x,
+    NoDup (map f l) -> nth_error l i = Some x -> ~ In (f x) (map f (firstn i l)).
+Proof.
+  intros A B f l. induction l as [|y l IH]; intros i x Hnd Hi; [destruct i; discriminate Hi |].
+  inversion Hnd as [|? ? Hnin Hnd']; subst. destruct i as [|i]; simpl in *; [tauto |].
+  intros [He | Hin].
+  - apply Hnin. rewrite He. apply in_map. eapply nth_error_In. exact Hi.
+  - apply (IH i x Hnd' Hi Hin).
+Qed.
+
 Section OptimSpec.
   Context {F : Type} (O : ScalarOps F).
 
@@ -121,9 +136,18 @@ Section OptimSpec.
   Definition has_grad (s : state) (h : handle) : bool :=
     match grad_of s h with Some _ => true | None => false end.
 
-  (** the parameters that hold a gradient, in order *)
+  (** the handles of a flagged list whose flag is [false], in order *)
+  Definition unf_of (pf : list (handle * bool)) : list handle :=
+    map fst (filter (fun p : handle * bool => negb (snd p)) pf).
+
+  (** the parameters paired with the flags of corgi's walk ([frozen_flags]) *)
+  Definition flagged (s : state) (params : list handle) : list (handle * bool) :=
+    combine params (frozen_flags s [] params).
+
+  (** the parameters that are stepped, in order: those that hold a gradient and whose node
+      does not occur earlier in the list *)
   Definition unfrozen (s : state) (params : list handle) : list handle :=
-    filter (has_grad s) params.
+    unf_of (flagged s params).
 
   Definition pvals_of (s : state) (h : handle) : list F :=
     match h_node s h with Some nd => p_vals (n_pay nd) | None => [] end.
@@ -147,13 +171,196 @@ Section OptimSpec.
     - split; [discriminate | intros (nd' & E & _); discriminate].
   Qed.
 
-  Lemma in_unfrozen : forall (s : state) params h,
-      In h (unfrozen s params) <-> In h params /\ exists g, grad_of s h = Some g.
+  (** the gradient slot belongs to the node: two handles of one node see the same slot *)
+  Lemma grad_of_node : forall (s : state) h1 h2, e_node h1 = e_node h2 -> grad_of s h1 = grad_of s h2.
+  Proof. intros s h1 h2 H. unfold grad_of, h_node. rewrite H. reflexivity. Qed.
+
+  Lemma in_unf_of : forall pf h, In h (unf_of pf) <-> In (h, false) pf.
   Proof.
-    intros s params h. unfold unfrozen. rewrite filter_In. unfold has_grad.
+    intros pf h. unfold unf_of. rewrite in_map_iff. split.
+    - intros ([h' b] & E & Hin). simpl in E. subst h'. apply filter_In in Hin.
+      destruct Hin as [Hin Hb]. simpl in Hb. destruct b; [discriminate Hb | exact Hin].
+    - intro Hin. exists (h, false). split; [reflexivity |]. apply filter_In. split; [exact Hin | reflexivity].
+  Qed.
+
+  (** *** the flags of corgi's walk *)
+
+  Lemma frozen_flags_length : forall (s : state) ps taken, length (frozen_flags s taken ps) = length ps.
+  Proof.
+    intros s ps. induction ps as [|h ps IH]; intros taken; simpl; [reflexivity |].
+    destruct (grad_of s h); [destruct (existsb (Nat.eqb (e_node h)) taken) |]; simpl; f_equal; apply IH.
+  Qed.
+
+  (** a handle is stepped exactly when it holds a gradient and its node was not met before *)
+  Lemma frozen_flags_false_iff : forall (s : state) ps taken i h,
+      nth_error ps i = Some h ->
+      (nth_error (frozen_flags s taken ps) i = Some false <->
+       (exists g, grad_of s h = Some g) /\ ~ In (e_node h) taken /\
+       ~ In (e_node h) (map e_node (firstn i ps))).
+  Proof.
+    intros s ps. induction ps as [|h0 ps IH]; intros taken i h Hi.
+    - destruct i; discriminate Hi.
+    - destruct i as [|i]; simpl in Hi.
+      + injection Hi as ->. simpl. destruct (grad_of s h) as [g|] eqn:Hg.
+        * destruct (existsb (Nat.eqb (e_node h)) taken) eqn:Hm; simpl.
+          -- apply existsb_eqb_In in Hm. split; [discriminate | intros (_ & Hn & _); contradiction].
+          -- split; [intros _ | reflexivity]. split; [eauto |]. split; [| intros []].
+             intro Hin. apply existsb_eqb_In in Hin. congruence.
+        * simpl. split; [discriminate | intros ((g & Hg') & _); discriminate].
+      + cbn [firstn map In]. cbn [frozen_flags].
+        destruct (grad_of s h0) as [g0|] eqn:Hg0.
+        * destruct (existsb (Nat.eqb (e_node h0)) taken) eqn:Hm; cbn [nth_error].
+          -- apply existsb_eqb_In in Hm. rewrite (IH taken i h Hi). split.
+             ++ intros (Hg & Ht & Hf). split; [exact Hg |]. split; [exact Ht |].
+                intros [He | Hin]; [apply Ht; rewrite <- He; exact Hm | exact (Hf Hin)].
+             ++ intros (Hg & Ht & Hf). split; [exact Hg |]. split; [exact Ht |].
+                intro Hin. apply Hf. right. exact Hin.
+          -- rewrite (IH (e_node h0 :: taken) i h Hi). cbn [In]. split.
+             ++ intros (Hg & Ht & Hf). split; [exact Hg |]. split; [tauto | tauto].
+             ++ intros (Hg & Ht & Hf). split; [exact Hg |]. split; [tauto | tauto].
+        * cbn [nth_error]. rewrite (IH taken i h Hi). split.
+          -- intros (Hg & Ht & Hf). split; [exact Hg |]. split; [exact Ht |].
+             intros [He | Hin]; [| exact (Hf Hin)].
+             destruct Hg as (g & Hg). rewrite (grad_of_node s h h0 (eq_sym He)) in Hg. congruence.
+          -- intros (Hg & Ht & Hf). split; [exact Hg |]. split; [exact Ht |].
+             intro Hin. apply Hf. right. exact Hin.
+  Qed.
+
+  (** without repeated nodes, corgi's walk is the up-front test "holds no gradient" *)
+  Lemma frozen_flags_nodup_gen : forall (s : state) ps taken,
+      NoDup (map e_node ps) -> (forall h, In h ps -> ~ In (e_node h) taken) ->
+      frozen_flags s taken ps = map (is_frozen s) ps.
+  Proof.
+    intros s ps. induction ps as [|h ps IH]; intros taken Hnd Hdis; simpl; [reflexivity |].
+    inversion Hnd as [|? ? Hnin Hnd']; subst. unfold is_frozen at 1.
     destruct (grad_of s h) as [g|].
-    - split; intros [H _]; split; eauto.
-    - split; [intros [_ H]; discriminate | intros [_ (g & H)]; discriminate].
+    - assert (Hm : existsb (Nat.eqb (e_node h)) taken = false).
+      { destruct (existsb (Nat.eqb (e_node h)) taken) eqn:E; [| reflexivity].
+        apply existsb_eqb_In in E. exfalso. apply (Hdis h (or_introl eq_refl) E). }
+      rewrite Hm. f_equal. apply IH; [exact Hnd' |].
+      intros h' Hh' [He | Hin].
+      + apply Hnin. rewrite He. apply in_map. exact Hh'.
+      + apply (Hdis h' (or_intror Hh') Hin).
+    - f_equal. apply IH; [exact Hnd' |]. intros h' Hh'. apply Hdis. right. exact Hh'.
+  Qed.
+
+  Theorem frozen_flags_nodup : forall (s : state) params,
+      NoDup (map e_node params) ->
+      frozen_flags s [] params
+      = map (fun h => match grad_of s h with None => true | Some _ => false end) params.
+  Proof. intros s params H. apply (frozen_flags_nodup_gen s params [] H). intros h _ []. Qed.
+
+  Lemma frozen_flags_firstn : forall (s : state) ps taken i,
+      frozen_flags s taken (firstn i ps) = firstn i (frozen_flags s taken ps).
+  Proof.
+    intros s ps. induction ps as [|h ps IH]; intros taken i; [destruct i; reflexivity |].
+    destruct i as [|i]; [reflexivity |]. cbn [firstn frozen_flags].
+    destruct (grad_of s h); [destruct (existsb (Nat.eqb (e_node h)) taken) |]; cbn [firstn];
+      f_equal; apply IH.
+  Qed.
+
+  Lemma combine_firstn_eq : forall {A B} (l : list A) (l' : list B) i,
+      firstn i (combine l l') = combine (firstn i l) (firstn i l').
+  Proof.
+    intros A B l. induction l as [|x l IH]; intros l' i; [destruct i; reflexivity |].
+    destruct l' as [|y l']; [destruct i; reflexivity |].
+    destruct i as [|i]; [reflexivity |]. simpl. f_equal. apply IH.
+  Qed.
+
+  Lemma flagged_firstn : forall (s : state) ps i, firstn i (flagged s ps) = flagged s (firstn i ps).
+  Proof. intros s ps i. unfold flagged. rewrite combine_firstn_eq, frozen_flags_firstn. reflexivity. Qed.
+
+  Lemma flagged_length : forall (s : state) ps, length (flagged s ps) = length ps.
+  Proof. intros s ps. unfold flagged. rewrite combine_length, frozen_flags_length. apply Nat.min_id. Qed.
+
+  Lemma flagged_nth : forall (s : state) ps i h,
+      nth_error ps i = Some h ->
+      exists b, nth_error (frozen_flags s [] ps) i = Some b /\ nth_error (flagged s ps) i = Some (h, b).
+  Proof.
+    intros s ps i h Hi.
+    assert (Hlt : i < length (frozen_flags s [] ps)).
+    { rewrite frozen_flags_length. apply nth_error_Some. rewrite Hi. discriminate. }
+    destruct (nth_error (frozen_flags s [] ps) i) as [b|] eqn:Hb; [| apply nth_error_None in Hb; lia].
+    exists b. split; [reflexivity |]. unfold flagged.
+    clear Hlt. revert i Hi Hb. generalize (frozen_flags s [] ps) as fl.
+    induction ps as [|x ps IH]; intros fl i Hi Hb; [destruct i; discriminate Hi |].
+    destruct fl as [|y fl]; [destruct i; discriminate Hb |].
+    destruct i as [|i]; simpl in *; [congruence | apply IH; assumption].
+  Qed.
+
+  Lemma in_combine_flags : forall (s : state) ps taken h,
+      In (h, false) (combine ps (frozen_flags s taken ps)) ->
+      In h ps /\ exists g, grad_of s h = Some g.
+  Proof.
+    intros s ps. induction ps as [|h0 ps IH]; intros taken h Hin; [destruct Hin |].
+    cbn [frozen_flags] in Hin.
+    destruct (grad_of s h0) as [g0|] eqn:Hg0; [destruct (existsb (Nat.eqb (e_node h0)) taken) |];
+      cbn [combine In] in Hin; destruct Hin as [Hin | Hin]; try discriminate Hin.
+    - destruct (IH _ _ Hin) as [H1 H2]. split; [right; exact H1 | exact H2].
+    - injection Hin as ->. split; [left; reflexivity | eauto].
+    - destruct (IH _ _ Hin) as [H1 H2]. split; [right; exact H1 | exact H2].
+    - destruct (IH _ _ Hin) as [H1 H2]. split; [right; exact H1 | exact H2].
+  Qed.
+
+  (** [->] only: a later handle of a node that was already stepped is not in the list *)
+  Lemma in_unfrozen : forall (s : state) params h,
+      In h (unfrozen s params) -> In h params /\ exists g, grad_of s h = Some g.
+  Proof.
+    intros s params h Hin. apply in_unf_of in Hin. apply (in_combine_flags s params [] h Hin).
+  Qed.
+
+  (** the stepped nodes are pairwise distinct, and every node of a handle with a gradient
+      is among them *)
+  Lemma unf_nodes_gen : forall (s : state) ps taken,
+      NoDup (map e_node (unf_of (combine ps (frozen_flags s taken ps)))) /\
+      (forall j, In j (map e_node (unf_of (combine ps (frozen_flags s taken ps)))) -> ~ In j taken) /\
+      (forall h g, In h ps -> grad_of s h = Some g ->
+                   In (e_node h) taken \/
+                   In (e_node h) (map e_node (unf_of (combine ps (frozen_flags s taken ps))))).
+  Proof.
+    intros s ps. induction ps as [|h0 ps IH]; intros taken.
+    - simpl. split; [constructor |]. split; [intros j [] | intros h g []].
+    - cbn [frozen_flags]. destruct (grad_of s h0) as [g0|] eqn:Hg0.
+      + destruct (existsb (Nat.eqb (e_node h0)) taken) eqn:Hm.
+        * apply existsb_eqb_In in Hm. destruct (IH taken) as (I1 & I2 & I3).
+          split; [exact I1 |]. split; [exact I2 |].
+          intros h g [Hh | Hh] Hg; [subst h; left; exact Hm | apply (I3 h g Hh Hg)].
+        * destruct (IH (e_node h0 :: taken)) as (I1 & I2 & I3).
+          unfold unf_of in *. cbn [combine filter snd negb map fst].
+          split; [| split].
+          -- constructor; [| exact I1]. intro Hin. apply (I2 _ Hin). left. reflexivity.
+          -- intros j [Hj | Hj].
+             ++ subst j. intro Hin. apply existsb_eqb_In in Hin. congruence.
+             ++ intro Hin. apply (I2 j Hj). right. exact Hin.
+          -- intros h g [Hh | Hh] Hg.
+             ++ subst h. right. left. reflexivity.
+             ++ destruct (I3 h g Hh Hg) as [[He | Ht] | Hu].
+                ** right. left. exact He.
+                ** left. exact Ht.
+                ** right. right. exact Hu.
+      + destruct (IH taken) as (I1 & I2 & I3).
+        split; [exact I1 |]. split; [exact I2 |].
+        intros h g [Hh | Hh] Hg; [subst h; congruence | apply (I3 h g Hh Hg)].
+  Qed.
+
+  Theorem unfrozen_nodup : forall (s : state) params, NoDup (map e_node (unfrozen s params)).
+  Proof. intros s params. apply (unf_nodes_gen s params []). Qed.
+
+  Theorem unfrozen_nodes : forall (s : state) params h g,
+      In h params -> grad_of s h = Some g -> In (e_node h) (map e_node (unfrozen s params)).
+  Proof.
+    intros s params h g Hh Hg. destruct (unf_nodes_gen s params []) as (_ & _ & H).
+    destruct (H h g Hh Hg) as [[] | Hin]. exact Hin.
+  Qed.
+
+  (** without repeated nodes the stepped parameters are those that hold a gradient *)
+  Theorem unfrozen_nodup_eq : forall (s : state) params,
+      NoDup (map e_node params) -> unfrozen s params = filter (has_grad s) params.
+  Proof.
+    intros s params H. unfold unfrozen, flagged, unf_of. rewrite (frozen_flags_nodup_gen s params [] H).
+    - rewrite combine_map_r. apply filter_mask.
+      intro h. unfold is_frozen, has_grad. destruct (grad_of s h); reflexivity.
+    - intros h _ [].
   Qed.
 
   (** the node allocated for an unfrozen parameter whose old node is [nd] and whose
@@ -164,36 +371,46 @@ Section OptimSpec.
                    p_bop := None; p_buf := id; p_tag := tag |};
        n_children := []; n_count := 0; n_delta := None; n_grad := None |}.
 
-  (** the fresh nodes, in parameter order; [base] is the id of the next node *)
-  Fixpoint gd_new (s : state) (lr : F) (base : nat) (ps : list handle) : list gnode :=
-    match ps with
+  (** the fresh nodes of a flagged list, in order; [base] is the id of the next node *)
+  Fixpoint gd_new_f (s : state) (lr : F) (base : nat) (pf : list (handle * bool)) : list gnode :=
+    match pf with
     | [] => []
-    | h :: ps' =>
+    | (h, true) :: pf' => gd_new_f s lr base pf'
+    | (h, false) :: pf' =>
       match h_node s h with
       | Some nd =>
         match n_grad nd with
-        | Some g => gd_new_node (st_tag s) base lr nd g :: gd_new s lr (S base) ps'
-        | None => gd_new s lr base ps'
+        | Some g => gd_new_node (st_tag s) base lr nd g :: gd_new_f s lr (S base) pf'
+        | None => gd_new_f s lr base pf'
         end
-      | None => gd_new s lr base ps'
+      | None => gd_new_f s lr base pf'
       end
     end.
 
   (** the returned handles: a frozen parameter is returned as is, an unfrozen one is
       rebound to its fresh node, tracked *)
-  Fixpoint gd_out (s : state) (base : nat) (ps : list handle) : list handle :=
-    match ps with
+  Fixpoint gd_out_f (base : nat) (pf : list (handle * bool)) : list handle :=
+    match pf with
     | [] => []
-    | h :: ps' =>
-      match h_node s h with
-      | Some nd =>
-        match n_grad nd with
-        | Some _ => mkh base true true :: gd_out s (S base) ps'
-        | None => h :: gd_out s base ps'
-        end
-      | None => h :: gd_out s base ps'
-      end
+    | (h, true) :: pf' => h :: gd_out_f base pf'
+    | (h, false) :: pf' => mkh base true true :: gd_out_f (S base) pf'
     end.
+
+  Definition gd_new (s : state) (lr : F) (base : nat) (ps : list handle) : list gnode :=
+    gd_new_f s lr base (flagged s ps).
+
+  Definition gd_out (s : state) (base : nat) (ps : list handle) : list handle :=
+    gd_out_f base (flagged s ps).
+
+  (** every handle flagged [false] has a node and a gradient *)
+  Definition flags_ok (s : state) (pf : list (handle * bool)) : Prop :=
+    forall h, In (h, false) pf -> exists nd g, h_node s h = Some nd /\ n_grad nd = Some g.
+
+  Lemma flagged_ok : forall (s : state) ps, flags_ok s (flagged s ps).
+  Proof.
+    intros s ps h Hin. destruct (in_combine_flags s ps [] h Hin) as (_ & g & Hg).
+    apply grad_of_some in Hg. destruct Hg as (nd & Hn & Hg). eauto.
+  Qed.
 
   (** emptying the gradient slots of the nodes [ids] *)
   Definition clear_if (ids : list nat) (j : nat) (nd : gnode) : gnode :=
@@ -290,13 +507,12 @@ Section OptimSpec.
 
   Lemma gd_update_unfold : forall (s : state) lr params,
       gd_update O s lr params =
-      (let frozen := map (is_frozen s) params in
-       let unf := map fst (filter (fun p : handle * bool => negb (snd p)) (combine params frozen)) in
+      (let unf := unfrozen s params in
        pv <- mapM (fun h => a <- h_arr s h ;; Some (vals a)) unf ;;
        pg <- mapM (fun h => g <- grad_of s h ;; Some (vals g)) unf ;;
        s1 <- fold_left (fun (acc : option state) (h : handle) => st <- acc ;; clear_grad st h)
                        unf (Some s) ;;
-       r <- fold_left gd_step (combine params frozen)
+       r <- fold_left gd_step (flagged s params)
                       (Some (s1, sgd_zip O lr (concat pv) (concat pg), [])) ;;
        let '(s2, _, out) := r in Some (s2, out)).
   Proof. reflexivity. Qed.
@@ -335,30 +551,34 @@ Section OptimSpec.
     forall h nd g, In h params -> h_node s h = Some nd -> n_grad nd = Some g ->
                    wf (pay_arr (n_pay nd)) /\ length (vals g) = length (p_vals (n_pay nd)).
 
-  Lemma gd_loop : forall (s : state) lr ps (s' : state) out,
+  Lemma gd_loop : forall (s : state) lr pf (s' : state) out,
       st_tag s' = st_tag s ->
       pay_agree s s' ->
-      param_ok s ps ->
-      fold_left gd_step (map (fun h => (h, is_frozen s h)) ps)
+      flags_ok s pf ->
+      param_ok s (map fst pf) ->
+      fold_left gd_step pf
                 (Some (s',
-                       sgd_zip O lr (concat (map (pvals_of s) (filter (has_grad s) ps)))
-                               (concat (map (gvals_of s) (filter (has_grad s) ps))),
+                       sgd_zip O lr (concat (map (pvals_of s) (unf_of pf)))
+                               (concat (map (gvals_of s) (unf_of pf))),
                        out))
-      = Some (with_nodes s' (st_nodes s' ++ gd_new s lr (length (st_nodes s')) ps),
-              [], out ++ gd_out s (length (st_nodes s')) ps).
+      = Some (with_nodes s' (st_nodes s' ++ gd_new_f s lr (length (st_nodes s')) pf),
+              [], out ++ gd_out_f (length (st_nodes s')) pf).
   Proof.
-    intros s lr ps. induction ps as [|h ps IH]; intros s' out Htag Hag Hok.
+    intros s lr pf. induction pf as [|[h fb] pf IH]; intros s' out Htag Hag Hfl Hok.
     - simpl. rewrite !app_nil_r, with_nodes_id. reflexivity.
-    - assert (Hok' : param_ok s ps).
+    - assert (Hfl' : flags_ok s pf) by (intros h' Hin; apply Hfl; right; exact Hin).
+      assert (Hok' : param_ok s (map fst pf)).
       { intros h' nd g Hin. apply Hok. right. exact Hin. }
-      cbn [map fold_left filter gd_new gd_out].
-      destruct (h_node s h) as [nd|] eqn:Hn; [destruct (n_grad nd) as [g|] eqn:Hg|].
+      destruct fb.
+      + (* frozen *)
+        cbn [fold_left gd_new_f gd_out_f]. unfold unf_of. cbn [filter snd negb]. fold (unf_of pf).
+        unfold gd_step at 2. cbn [obind fst snd].
+        rewrite IH by assumption. rewrite <- app_assoc. reflexivity.
       + (* unfrozen *)
-        assert (Hhg : has_grad s h = true) by (unfold has_grad, grad_of; rewrite Hn, Hg; reflexivity).
-        assert (Hfr : is_frozen s h = false) by (unfold is_frozen, grad_of; rewrite Hn, Hg; reflexivity).
-        rewrite Hhg, Hfr.
+        destruct (Hfl h (or_introl eq_refl)) as (nd & g & Hn & Hg).
         destruct (Hok h nd g (or_introl eq_refl) Hn Hg) as [Hwf Hlen].
-        cbn [map concat].
+        cbn [fold_left gd_new_f gd_out_f]. rewrite Hn, Hg.
+        unfold unf_of. cbn [filter snd negb map fst concat]. fold (unf_of pf).
         assert (Epv : pvals_of s h = p_vals (n_pay nd)) by (unfold pvals_of; rewrite Hn; reflexivity).
         assert (Egv : gvals_of s h = vals g)
           by (unfold gvals_of, grad_of; rewrite Hn, Hg; reflexivity).
@@ -377,15 +597,17 @@ Section OptimSpec.
         * intros j nd0 Hj. destruct (Hag j nd0 Hj) as (nd0' & Hj' & E0).
           exists nd0'. split; [|exact E0]. cbn [st_nodes with_nodes].
           rewrite nth_error_app1; [exact Hj'|]. apply nth_error_Some. congruence.
+        * exact Hfl'.
         * exact Hok'.
-      + (* frozen: no gradient *)
-        assert (Hhg : has_grad s h = false) by (unfold has_grad, grad_of; rewrite Hn, Hg; reflexivity).
-        assert (Hfr : is_frozen s h = true) by (unfold is_frozen, grad_of; rewrite Hn, Hg; reflexivity).
-        rewrite Hhg, Hfr. simpl. rewrite IH by assumption. rewrite <- app_assoc. reflexivity.
-      + (* frozen: dangling handle *)
-        assert (Hhg : has_grad s h = false) by (unfold has_grad, grad_of; rewrite Hn; reflexivity).
-        assert (Hfr : is_frozen s h = true) by (unfold is_frozen, grad_of; rewrite Hn; reflexivity).
-        rewrite Hhg, Hfr. simpl. rewrite IH by assumption. rewrite <- app_assoc. reflexivity.
+  Qed.
+
+  Lemma map_fst_combine_flags : forall (s : state) ps taken,
+      map fst (combine ps (frozen_flags s taken ps)) = ps.
+  Proof.
+    intros s ps taken. assert (H : length (frozen_flags s taken ps) = length ps) by apply frozen_flags_length.
+    revert H. generalize (frozen_flags s taken ps) as fl.
+    induction ps as [|x ps IH]; intros fl H; [reflexivity |].
+    destruct fl as [|y fl]; [discriminate H |]. simpl. f_equal. apply IH. simpl in H. lia.
   Qed.
 
   (** ** Closed form *)
@@ -398,10 +620,6 @@ Section OptimSpec.
             gd_out s (length (st_nodes s)) params).
   Proof.
     intros s lr params Hok. rewrite gd_update_unfold. cbv zeta.
-    rewrite combine_map_r.
-    rewrite (filter_mask (is_frozen s) (has_grad s))
-      by (intro h; unfold is_frozen, has_grad; destruct (grad_of s h); reflexivity).
-    fold (unfrozen s params).
     assert (HU : forall h, In h (unfrozen s params) ->
                            exists nd g, h_node s h = Some nd /\ n_grad nd = Some g).
     { intros h Hin. apply in_unfrozen in Hin. destruct Hin as (_ & g & Hg).
@@ -423,63 +641,107 @@ Section OptimSpec.
     - reflexivity.
     - intros j nd Hj. cbn [st_nodes with_nodes]. rewrite clear_grads_nth, Hj. simpl.
       eexists. split; [reflexivity | apply clear_if_pay].
-    - exact Hok.
+    - apply flagged_ok.
+    - unfold flagged. rewrite map_fst_combine_flags. exact Hok.
   Qed.
 
   (** ** Position-wise reading of the closed form *)
 
-  Lemma gd_out_length : forall (s : state) ps base, length (gd_out s base ps) = length ps.
+  Lemma gd_out_f_length : forall pf base, length (gd_out_f base pf) = length pf.
   Proof.
-    intros s ps. induction ps as [|h ps IH]; intros base; simpl; [reflexivity|].
-    destruct (h_node s h) as [nd|]; [destruct (n_grad nd)|]; simpl; f_equal; apply IH.
+    intros pf. induction pf as [|[h fb] pf IH]; intros base; simpl; [reflexivity |].
+    destruct fb; simpl; f_equal; apply IH.
+  Qed.
+
+  Lemma gd_out_length : forall (s : state) ps base, length (gd_out s base ps) = length ps.
+  Proof. intros s ps base. unfold gd_out. rewrite gd_out_f_length. apply flagged_length. Qed.
+
+  Lemma gd_new_f_length : forall (s : state) lr pf base,
+      flags_ok s pf -> length (gd_new_f s lr base pf) = length (unf_of pf).
+  Proof.
+    intros s lr pf. induction pf as [|[h fb] pf IH]; intros base Hfl; [reflexivity |].
+    assert (Hfl' : flags_ok s pf) by (intros h' Hin; apply Hfl; right; exact Hin).
+    destruct fb; cbn [gd_new_f]; unfold unf_of; cbn [filter snd negb map]; fold (unf_of pf).
+    - apply IH. exact Hfl'.
+    - destruct (Hfl h (or_introl eq_refl)) as (nd & g & Hn & Hg). rewrite Hn, Hg.
+      cbn [length]. f_equal. apply IH. exact Hfl'.
   Qed.
 
   Lemma gd_new_length : forall (s : state) lr ps base,
       length (gd_new s lr base ps) = length (unfrozen s ps).
+  Proof. intros s lr ps base. apply gd_new_f_length. apply flagged_ok. Qed.
+
+  Lemma gd_out_f_true : forall pf base i h,
+      nth_error pf i = Some (h, true) -> nth_error (gd_out_f base pf) i = Some h.
   Proof.
-    intros s lr ps. unfold unfrozen. induction ps as [|h ps IH]; intros base; simpl; [reflexivity|].
-    unfold has_grad, grad_of.
-    destruct (h_node s h) as [nd|]; [destruct (n_grad nd)|]; simpl; try f_equal; apply IH.
+    intros pf. induction pf as [|[h0 fb] pf IH]; intros base i h Hi; [destruct i; discriminate Hi |].
+    destruct i as [|i]; simpl in Hi.
+    - injection Hi as -> ->. reflexivity.
+    - destruct fb; simpl; apply IH; exact Hi.
   Qed.
 
+  Lemma gd_f_false_nth : forall (s : state) lr pf base i h nd g,
+      flags_ok s pf ->
+      nth_error pf i = Some (h, false) -> h_node s h = Some nd -> n_grad nd = Some g ->
+      let k := length (unf_of (firstn i pf)) in
+      nth_error (gd_out_f base pf) i = Some (mkh (base + k) true true) /\
+      nth_error (gd_new_f s lr base pf) k = Some (gd_new_node (st_tag s) (base + k) lr nd g).
+  Proof.
+    intros s lr pf. induction pf as [|[h0 fb] pf IH]; intros base i h nd g Hfl Hi Hn Hg.
+    - destruct i; discriminate Hi.
+    - assert (Hfl' : flags_ok s pf) by (intros h' Hin; apply Hfl; right; exact Hin).
+      destruct i as [|i]; simpl in Hi.
+      + injection Hi as -> ->. cbn [firstn gd_out_f gd_new_f]. rewrite Hn, Hg. simpl.
+        rewrite Nat.add_0_r. split; reflexivity.
+      + cbn [firstn gd_out_f gd_new_f]. unfold unf_of. cbn [filter snd negb]. destruct fb.
+        * cbn [negb map]. fold (unf_of (firstn i pf)). cbn [nth_error].
+          apply (IH base i h nd g Hfl' Hi Hn Hg).
+        * cbn [negb map length]. fold (unf_of (firstn i pf)). cbn [nth_error].
+          destruct (Hfl h0 (or_introl eq_refl)) as (nd0 & g0 & Hn0 & Hg0). rewrite Hn0, Hg0.
+          cbn [nth_error].
+          replace (base + S (length (unf_of (firstn i pf))))
+            with (S base + length (unf_of (firstn i pf))) by lia.
+          apply (IH (S base) i h nd g Hfl' Hi Hn Hg).
+  Qed.
+
+  (** a parameter without gradient is returned as is *)
   Lemma gd_out_frozen : forall (s : state) ps base i h,
       nth_error ps i = Some h -> grad_of s h = None ->
       nth_error (gd_out s base ps) i = Some h.
   Proof.
-    intros s ps. induction ps as [|h0 ps IH]; intros base i h Hi Hg.
-    - destruct i; discriminate.
-    - destruct i as [|i]; simpl in Hi.
-      + injection Hi as ->. simpl. unfold grad_of in Hg.
-        destruct (h_node s h) as [nd|]; [rewrite Hg|]; reflexivity.
-      + simpl. destruct (h_node s h0) as [nd|]; [destruct (n_grad nd)|]; simpl;
-          apply IH; assumption.
+    intros s ps base i h Hi Hg. destruct (flagged_nth s ps i h Hi) as (fb & Hb & Hf).
+    apply gd_out_f_true. destruct fb; [exact Hf |].
+    apply (frozen_flags_false_iff s ps [] i h Hi) in Hb. destruct Hb as ((g & Hg') & _). congruence.
   Qed.
 
+  (** a later handle of a node that holds a gradient is returned as is *)
+  Lemma gd_out_alias : forall (s : state) ps base i h,
+      nth_error ps i = Some h -> In (e_node h) (map e_node (firstn i ps)) ->
+      nth_error (gd_out s base ps) i = Some h.
+  Proof.
+    intros s ps base i h Hi Hin. destruct (flagged_nth s ps i h Hi) as (fb & Hb & Hf).
+    apply gd_out_f_true. destruct fb; [exact Hf |].
+    apply (frozen_flags_false_iff s ps [] i h Hi) in Hb. destruct Hb as (_ & _ & Hn). contradiction.
+  Qed.
+
+  (** the first handle of a node that holds a gradient is stepped *)
   Lemma gd_unfrozen_nth : forall (s : state) lr ps base i h nd g,
       nth_error ps i = Some h -> h_node s h = Some nd -> n_grad nd = Some g ->
+      ~ In (e_node h) (map e_node (firstn i ps)) ->
       let k := length (unfrozen s (firstn i ps)) in
       nth_error (gd_out s base ps) i = Some (mkh (base + k) true true) /\
       nth_error (gd_new s lr base ps) k = Some (gd_new_node (st_tag s) (base + k) lr nd g).
   Proof.
-    intros s lr ps. unfold unfrozen.
-    induction ps as [|h0 ps IH]; intros base i h nd g Hi Hn Hg.
-    - destruct i; discriminate.
-    - destruct i as [|i]; simpl in Hi.
-      + injection Hi as ->. simpl. rewrite Hn, Hg. simpl. rewrite Nat.add_0_r. split; reflexivity.
-      + specialize (IH (S base) i h nd g Hi Hn Hg) as IHs.
-        specialize (IH base i h nd g Hi Hn Hg) as IHb.
-        cbn [firstn filter gd_out gd_new].
-        assert (Hhg : has_grad s h0 = match h_node s h0 with
-                                      | Some nd0 => match n_grad nd0 with Some _ => true | None => false end
-                                      | None => false end).
-        { unfold has_grad, grad_of. destruct (h_node s h0); reflexivity. }
-        rewrite Hhg. clear Hhg.
-        destruct (h_node s h0) as [nd0|]; [destruct (n_grad nd0)|]; cbn [length nth_error].
-        * replace (base + S (length (filter (has_grad s) (firstn i ps))))
-            with (S base + length (filter (has_grad s) (firstn i ps))) by lia.
-          exact IHs.
-        * exact IHb.
-        * exact IHb.
+    intros s lr ps base i h nd g Hi Hn Hg Hfirst. cbv zeta.
+    destruct (flagged_nth s ps i h Hi) as (fb & Hb & Hf).
+    assert (fb = false).
+    { destruct fb; [| reflexivity]. exfalso.
+      assert (Hfalse : nth_error (frozen_flags s [] ps) i = Some false).
+      { apply (frozen_flags_false_iff s ps [] i h Hi). split; [| split; [intros [] | exact Hfirst]].
+        exists g. apply grad_of_some. eauto. }
+      congruence. }
+    subst fb. unfold unfrozen. rewrite <- flagged_firstn.
+    apply (gd_f_false_nth s lr (flagged s ps) base i h nd g (flagged_ok s ps) Hf Hn Hg).
   Qed.
 
   (** the postcondition of a successful update, position by position *)
@@ -497,9 +759,10 @@ Section OptimSpec.
     (forall i h, nth_error params i = Some h -> grad_of s h = None ->
        nth_error out i = Some h /\
        (forall nd, h_node s h = Some nd -> h_node s' h = Some nd)) /\
-    (* (2) an unfrozen parameter is rebound to a fresh tracked node holding one step with
-       its own gradient *)
+    (* (2) an unfrozen parameter -- the first handle of its node in the list -- is rebound to
+       a fresh tracked node holding one step with its own gradient *)
     (forall i h p g, nth_error params i = Some h -> h_arr s h = Some p -> grad_of s h = Some g ->
+       ~ In (e_node h) (map e_node (firstn i params)) ->
        let id := base + length (unfrozen s (firstn i params)) in
        nth_error out i = Some (mkh id true true) /\
        nth_error (st_nodes s') id =
@@ -516,6 +779,17 @@ Section OptimSpec.
   Lemma set_grad_none_id : forall nd : gnode, n_grad nd = None -> set_grad nd None = nd.
   Proof. intros nd H. destruct nd. simpl in *. subst. reflexivity. Qed.
 
+  Lemma gd_closed_old : forall (s : state) lr params j nd,
+      nth_error (st_nodes s) j = Some nd ->
+      nth_error (clear_grads (map e_node (unfrozen s params)) (st_nodes s)
+                 ++ gd_new s lr (length (st_nodes s)) params) j
+      = Some (clear_if (map e_node (unfrozen s params)) j nd).
+  Proof.
+    intros s lr params j nd Hj. rewrite nth_error_app1.
+    - rewrite clear_grads_nth, Hj. reflexivity.
+    - rewrite clear_grads_length. apply nth_error_Some. congruence.
+  Qed.
+
   Lemma gd_closed_post : forall (s : state) lr params,
       gd_post s lr params
               (with_nodes s (clear_grads (map e_node (unfrozen s params)) (st_nodes s)
@@ -529,12 +803,7 @@ Section OptimSpec.
     split; [repeat split|].
     split; [apply gd_out_length|].
     split; [rewrite app_length, HG, gd_new_length; reflexivity|].
-    assert (Hold : forall j nd, nth_error (st_nodes s) j = Some nd ->
-                                nth_error (G ++ gd_new s lr (length (st_nodes s)) params) j
-                                = Some (clear_if (map e_node U) j nd)).
-    { intros j nd Hj. rewrite nth_error_app1.
-      - unfold G. rewrite clear_grads_nth, Hj. reflexivity.
-      - rewrite HG. apply nth_error_Some. congruence. }
+    pose proof (gd_closed_old s lr params) as Hold. fold U in Hold. fold G in Hold.
     split; [|split; [|split]].
     - (* frozen *)
       intros i h Hi Hg. split; [apply gd_out_frozen; assumption|].
@@ -543,11 +812,11 @@ Section OptimSpec.
       destruct (existsb (Nat.eqb (e_node h)) (map e_node U)); [|reflexivity].
       apply set_grad_none_id. unfold grad_of, h_node in Hg. rewrite Hn in Hg. exact Hg.
     - (* unfrozen *)
-      intros i h p g Hi Hp Hg. cbv zeta.
+      intros i h p g Hi Hp Hg Hfirst. cbv zeta.
       apply h_arr_some in Hp. destruct Hp as (nd & Hn & ->).
       apply grad_of_some in Hg. destruct Hg as (nd' & Hn' & Hg).
       assert (nd' = nd) by congruence. subst nd'.
-      destruct (gd_unfrozen_nth s lr params (length (st_nodes s)) i h nd g Hi Hn Hg) as [Ho Hnew].
+      destruct (gd_unfrozen_nth s lr params (length (st_nodes s)) i h nd g Hi Hn Hg Hfirst) as [Ho Hnew].
       split; [exact Ho|].
       rewrite nth_error_app2 by (rewrite HG; lia).
       rewrite HG. replace (length (st_nodes s) + length (unfrozen s (firstn i params))
@@ -568,13 +837,12 @@ Section OptimSpec.
 
   (** ** Main theorem (C13) *)
 
-  (** The hypotheses concern the unfrozen parameters only (those holding a gradient):
-      their node payload is a well-formed array and the gradient has as many elements
-      as the parameter (C03).  [NoDup] delimits the property: two handles of one node
-      that both "hold" its gradient are outside C13 (in Rust the second one sees an
-      empty slot after the first [replace_gradient]; the model reads all slots from
-      the pre-state).  The proof itself does not use [NoDup]: see
-      [gd_update_spec_gen]. *)
+  (** The hypotheses concern the parameters that hold a gradient: their node payload is a
+      well-formed array and the gradient has as many elements as the parameter (C03).
+      As in corgi, "frozen" is decided while walking the list: a later handle of a node
+      whose gradient was already taken is frozen, so the stepped nodes are always pairwise
+      distinct ([unfrozen_nodup]); the [NoDup] hypothesis of [gd_update_spec] is kept for
+      compatibility and always holds. *)
   Definition gd_pre (s : state) (params : list handle) : Prop :=
     forall h p g, In h params -> h_arr s h = Some p -> grad_of s h = Some g ->
                   wf p /\ length (vals g) = length (vals p).
@@ -602,7 +870,115 @@ Section OptimSpec.
       exists s' out, gd_update O s lr params = Some (s', out) /\ gd_post s lr params s' out.
   Proof. intros s lr params _ H. apply gd_update_spec_gen. exact H. Qed.
 
+  (** ** Parameter lists with several handles of one node *)
+
+  (** what the update does to a later handle of a node that holds a gradient, and to the
+      gradient slots of all listed nodes *)
+  Definition gd_post_alias (s : state) (params : list handle)
+             (s' : state) (out : list handle) : Prop :=
+    (* (a) a handle whose node occurred earlier in the list is returned unchanged; if the node
+       held a gradient the slot is now empty, and the node is otherwise unchanged *)
+    (forall i h, nth_error params i = Some h -> In (e_node h) (map e_node (firstn i params)) ->
+       nth_error out i = Some h /\
+       (forall nd, h_node s h = Some nd -> h_node s' h = Some (set_grad nd None))) /\
+    (* (c) after the update no listed node holds a gradient *)
+    (forall h, In h params -> grad_of s' h = None) /\
+    (* nor does any returned handle *)
+    (forall h, In h out -> grad_of s' h = None).
+
+  Lemma gd_closed_post_alias : forall (s : state) lr params,
+      gd_post_alias s params
+              (with_nodes s (clear_grads (map e_node (unfrozen s params)) (st_nodes s)
+                             ++ gd_new s lr (length (st_nodes s)) params))
+              (gd_out s (length (st_nodes s)) params).
+  Proof.
+    intros s lr params. pose proof (gd_closed_old s lr params) as Hold.
+    set (U := unfrozen s params) in *.
+    assert (Hlisted : forall h, In h params ->
+              grad_of (with_nodes s (clear_grads (map e_node U) (st_nodes s)
+                                     ++ gd_new s lr (length (st_nodes s)) params)) h = None).
+    { intros h Hh. unfold grad_of, h_node. cbn [st_nodes with_nodes].
+      destruct (nth_error (st_nodes s) (e_node h)) as [nd|] eqn:Hn.
+      - rewrite (Hold _ _ Hn). unfold clear_if.
+        destruct (n_grad nd) as [g|] eqn:Hg.
+        + assert (E : existsb (Nat.eqb (e_node h)) (map e_node U) = true).
+          { apply existsb_eqb_In. apply (unfrozen_nodes s params h g Hh).
+            unfold grad_of, h_node. rewrite Hn. exact Hg. }
+          rewrite E. reflexivity.
+        + destruct (existsb (Nat.eqb (e_node h)) (map e_node U)); [reflexivity | exact Hg].
+      - (* a dangling handle can only land on a fresh node, which has no gradient *)
+        apply nth_error_None in Hn.
+        rewrite nth_error_app2 by (rewrite clear_grads_length; exact Hn).
+        destruct (nth_error (gd_new s lr (length (st_nodes s)) params)
+                            (e_node h - length (clear_grads (map e_node U) (st_nodes s))))
+          as [nd'|] eqn:Hn'; [| reflexivity].
+        unfold gd_new in Hn'. revert Hn'. generalize (length (st_nodes s)) as base.
+        generalize (e_node h - length (clear_grads (map e_node U) (st_nodes s))) as k.
+        generalize (flagged s params) as pf. clear.
+        intros pf. induction pf as [|[h0 fb] pf IH]; intros k base Hk; [destruct k; discriminate Hk |].
+        cbn [gd_new_f] in Hk. destruct fb; [apply (IH k base Hk) |].
+        destruct (h_node s h0) as [nd0|]; [destruct (n_grad nd0) as [g0|] |]; try (apply (IH k base Hk)).
+        destruct k as [|k]; [injection Hk as <-; reflexivity | apply (IH k (S base) Hk)]. }
+    split; [| split; [exact Hlisted |]].
+    - intros i h Hi Hin. split; [apply gd_out_alias; assumption |].
+      intros nd Hn. unfold h_node in *. cbn [st_nodes with_nodes]. rewrite (Hold _ _ Hn).
+      f_equal. unfold clear_if.
+      destruct (existsb (Nat.eqb (e_node h)) (map e_node U)) eqn:E; [reflexivity |].
+      symmetry. apply set_grad_none_id.
+      destruct (n_grad nd) as [g|] eqn:Hg; [| reflexivity]. exfalso.
+      assert (Hh : In h params) by (eapply nth_error_In; exact Hi).
+      assert (E' : existsb (Nat.eqb (e_node h)) (map e_node U) = true).
+      { apply existsb_eqb_In. apply (unfrozen_nodes s params h g Hh).
+        unfold grad_of, h_node. rewrite Hn. exact Hg. }
+      congruence.
+    - intros h Hin. apply In_nth_error in Hin. destruct Hin as (i & Hi).
+      assert (Hil : i < length params).
+      { rewrite <- (gd_out_length s params (length (st_nodes s))). apply nth_error_Some.
+        rewrite Hi. discriminate. }
+      destruct (nth_error params i) as [h0|] eqn:Hi0; [| apply nth_error_None in Hi0; lia].
+      destruct (flagged_nth s params i h0 Hi0) as (fb & Hb & Hf). destruct fb.
+      + unfold gd_out in Hi. rewrite (gd_out_f_true _ _ i h0 Hf) in Hi. injection Hi as <-.
+        apply Hlisted. eapply nth_error_In. exact Hi0.
+      + pose proof (flagged_ok s params h0 (nth_error_In _ _ Hf)) as (nd & g & Hn & Hg).
+        destruct (gd_f_false_nth s lr (flagged s params) (length (st_nodes s)) i h0 nd g
+                                 (flagged_ok s params) Hf Hn Hg) as [Ho Hnew].
+        unfold gd_out in Hi. rewrite Ho in Hi. injection Hi as <-.
+        unfold grad_of, h_node. cbn [st_nodes with_nodes e_node mkh].
+        rewrite nth_error_app2 by (rewrite clear_grads_length; lia).
+        rewrite clear_grads_length.
+        replace (length (st_nodes s) + length (unf_of (firstn i (flagged s params))) - length (st_nodes s))
+          with (length (unf_of (firstn i (flagged s params)))) by lia.
+        fold (gd_new s lr (length (st_nodes s)) params). unfold gd_new. rewrite Hnew. reflexivity.
+  Qed.
+
+  (** the update of ANY parameter list, repeated nodes included: [gd_post] for the handles
+      that are stepped (each with its own gradient: aliasing never shifts the flat buffers),
+      [gd_post_alias] for the later handles of a stepped node *)
+  Theorem gd_update_alias_spec : forall (s : state) lr params,
+      gd_pre s params ->
+      exists s' out, gd_update O s lr params = Some (s', out) /\
+                     gd_post s lr params s' out /\ gd_post_alias s params s' out.
+  Proof.
+    intros s lr params H. eexists. eexists. split; [| split].
+    - apply gd_update_closed. apply gd_pre_ok. exact H.
+    - apply gd_closed_post.
+    - apply gd_closed_post_alias.
+  Qed.
+
   (** ** No parameter holds a gradient *)
+
+  Lemma all_frozen_flags : forall (s : state) ps taken base lr,
+      (forall h, In h ps -> grad_of s h = None) ->
+      unf_of (combine ps (frozen_flags s taken ps)) = [] /\
+      gd_new_f s lr base (combine ps (frozen_flags s taken ps)) = [] /\
+      gd_out_f base (combine ps (frozen_flags s taken ps)) = ps.
+  Proof.
+    intros s ps taken base lr. induction ps as [|h ps IH]; intros H; [repeat split |].
+    cbn [frozen_flags]. rewrite (H h (or_introl eq_refl)).
+    destruct (IH (fun h' Hin => H h' (or_intror Hin))) as (E1 & E2 & E3).
+    unfold unf_of in *. cbn [combine filter snd negb gd_new_f gd_out_f].
+    split; [exact E1 |]. split; [exact E2 | rewrite E3; reflexivity].
+  Qed.
 
   Theorem gd_update_all_frozen : forall (s : state) lr params,
       (forall h, In h params -> grad_of s h = None) ->
@@ -613,18 +989,9 @@ Section OptimSpec.
     { intros h nd g Hin Hn Hg. specialize (H h Hin). unfold grad_of in H. rewrite Hn in H.
       congruence. }
     rewrite (gd_update_closed s lr params Hok).
-    assert (EU : unfrozen s params = []).
-    { unfold unfrozen. induction params as [|h ps IH]; simpl; [reflexivity|].
-      unfold has_grad at 1. rewrite (H h (or_introl eq_refl)). apply IH.
-      - intros h' Hin. apply H. right. exact Hin.
-      - intros h' nd g Hin. apply Hok. right. exact Hin. }
-    assert (EN : forall base, gd_new s lr base params = [] /\ gd_out s base params = params).
-    { clear EU Hok. induction params as [|h ps IH]; intros base; simpl; [split; reflexivity|].
-      assert (Hh := H h (or_introl eq_refl)). unfold grad_of in Hh.
-      destruct (IH (fun h' Hin => H h' (or_intror Hin)) base) as [E1 E2].
-      destruct (h_node s h) as [nd|]; [rewrite Hh|]; rewrite E1, E2; split; reflexivity. }
-    destruct (EN (length (st_nodes s))) as [E1 E2].
-    rewrite EU, E1, E2. simpl. rewrite clear_grads_nil, app_nil_r, with_nodes_id. reflexivity.
+    destruct (all_frozen_flags s params [] (length (st_nodes s)) lr H) as (E1 & E2 & E3).
+    unfold unfrozen, gd_new, gd_out, flagged. rewrite E1, E2, E3. simpl.
+    rewrite clear_grads_nil, app_nil_r, with_nodes_id. reflexivity.
   Qed.
 
   (** ** The model loop *)
@@ -796,13 +1163,54 @@ Module OptimExamples.
       split; [reflexivity|]. split; [reflexivity|]. split; [reflexivity|].
       split; [reflexivity|]. discriminate.
   Qed.
+  (** ** Two handles of one node: [w; w.clone(); b], lr = 2.  As in corgi, the first handle
+      takes the gradient of [w] and is stepped; the clone then sees no gradient and is
+      returned unchanged (its node only lost its gradient); [b] is stepped with ITS OWN
+      gradient [3] -- the flat buffers are not shifted by the clone. *)
+
+  Definition alias_state : @state Z :=
+    zstate [ znode [2%nat] [10; 20] 0 (Some {| dims := [2%nat]; vals := [1; 2] |});
+             znode [1%nat] [5] 1 (Some {| dims := [1%nat]; vals := [3] |}) ].
+
+  Definition alias_params : list handle := [mkh 0 true true; mkh 0 false false; mkh 1 true true].
+
+  Example gd_update_alias_example :
+    frozen_flags alias_state [] alias_params = [false; true; false] /\
+    exists s',
+      gd_update Z_ops alias_state 2 alias_params
+      = Some (s', [mkh 2 true true; mkh 0 false false; mkh 3 true true]) /\
+      view s' = [ ([2%nat], [10; 20], None);
+                  ([1%nat], [5], None);
+                  ([2%nat], [10 - 2 * 1; 20 - 2 * 2], None);
+                  ([1%nat], [5 - 2 * 3], None) ].
+  Proof. split; [reflexivity |]. eexists. vm_compute. repeat split. Qed.
+
+  (** the general theorem applies to this instance *)
+  Example gd_update_alias_instance :
+    exists s' out, gd_update Z_ops alias_state 2 alias_params = Some (s', out) /\
+                   gd_post Z_ops alias_state 2 alias_params s' out /\
+                   gd_post_alias alias_state alias_params s' out.
+  Proof.
+    apply gd_update_alias_spec. intros h p g Hin Hp Hg.
+    destruct Hin as [<-|[<-|[<-|[]]]]; vm_compute in Hp, Hg;
+      injection Hp as <-; injection Hg as <-;
+      (split; [split; [repeat constructor | reflexivity] | reflexivity]).
+  Qed.
 End OptimExamples.
 
 Print Assumptions gd_update_closed.
 Print Assumptions gd_update_spec_gen.
 Print Assumptions gd_update_spec.
 Print Assumptions gd_update_all_frozen.
+Print Assumptions frozen_flags_false_iff.
+Print Assumptions frozen_flags_nodup.
+Print Assumptions unfrozen_nodup.
+Print Assumptions unfrozen_nodes.
+Print Assumptions unfrozen_nodup_eq.
+Print Assumptions gd_update_alias_spec.
 Print Assumptions model_update_spec.
 Print Assumptions OptimExamples.gd_update_example.
 Print Assumptions OptimExamples.gd_update_spec_instance.
 Print Assumptions OptimExamples.gd_update_refuted_without_lengths.
+Print Assumptions OptimExamples.gd_update_alias_example.
+Print Assumptions OptimExamples.gd_update_alias_instance.
